@@ -210,25 +210,23 @@ structure Inv (s : State) : Prop where
   absent : ∀ c, c ∉ s.ids → s.conns c = {}
   counter : s.counter = cnt s.conns s.ids
   lockConn : ∀ c, holdsLock (s.conns c).pc = true ↔ s.lock = .conn c
-  lockShut : s.lock = .shutdown ↔ shutHolds s.shut = true
-  lockClose : s.lock = .closer ↔ closeHolds s.close = true
-  closing : s.closing = (shutClosed s.shut || closeClosed s.close)
+  lockShut : ∀ k, s.lock = .shutdown k ↔ shutHolds (s.shuts k).pc = true
+  lockClose : ∀ k, s.lock = .closer k ↔ closeHolds (s.closes k) = true
+  closingS : ∀ k, shutClosed (s.shuts k).pc = true → s.closing = true
+  closingC : ∀ k, closeClosed (s.closes k) = true → s.closing = true
   regNodup : s.registered.Nodup
   reg : ∀ c, c ∈ s.registered ↔ inMap (s.conns c).pc = true
   loc : ∀ c, Local s.closing (s.conns c)
-  nilDrained : s.shut = .retNil → s.counter = 0
-  afterNil : (s.shut = .retNil ∨ s.shut = .doneNil) → ∀ c, counted (s.conns c).pc = true → (s.conns c).regClosing = true
-  errCtx : (s.shut = .retErr ∨ s.shut = .doneErr) → s.ctxExpired = true
-  afterClose : closeSwept s.close = true → ∀ c, preReg (s.conns c).pc = false →
+  nilDrained : ∀ k, (s.shuts k).pc = .retNil → s.counter = 0
+  afterNil : ∀ k, ((s.shuts k).pc = .retNil ∨ (s.shuts k).pc = .doneNil) →
+      ∀ c, counted (s.conns c).pc = true → (s.conns c).regClosing = true
+  errCtx : ∀ k, ((s.shuts k).pc = .retErr ∨ (s.shuts k).pc = .doneErr) → (s.shuts k).done.isSome = true
+  afterClose : ∀ k, closeSwept (s.closes k) = true → ∀ c, preReg (s.conns c).pc = false →
       (s.conns c).sockClosed = true ∨ (s.conns c).regClosing = true
-  sweep : s.close = .closedCh → ∀ c, c ∈ s.registered → c ∈ s.sweepLeft ∨ (s.conns c).sockClosed = true
+  sweep : ∀ k, s.closes k = .closedCh → ∀ c, c ∈ s.registered → c ∈ s.sweepLeft ∨ (s.conns c).sockClosed = true
 
-theorem inv_init : Inv init := by
-  constructor <;> simp [init, cnt, holdsLock, shutHolds, closeHolds, shutClosed, closeClosed, inMap, counted,
-    Local.default, closeSwept]
-
-theorem inv_initNoLimit : Inv initNoLimit := by
-  constructor <;> simp [initNoLimit, cnt, holdsLock, shutHolds, closeHolds, shutClosed, closeClosed, inMap, counted,
+theorem inv_initCfg (nl sg : Bool) : Inv (initCfg nl sg) := by
+  constructor <;> simp [initCfg, cnt, holdsLock, shutHolds, closeHolds, shutClosed, closeClosed, inMap, counted,
     Local.default, closeSwept]
 
 end C11
